@@ -29,6 +29,8 @@ def load_execnet(src=None):
     sys.dont_write_bytecode = True
     if src not in sys.path:
         sys.path.insert(0, src)
+    # before the import: gateway_base binds `from _thread import interrupt_main` at import time
+    _procs.install_os_wrappers()
     import execnet
     import execnet.gateway_base as gb
     import execnet.gateway as gw
